@@ -131,9 +131,25 @@ def rule_sqlregion(program, ctx, prop=P, rid="C07.sqlregion"):
                                     work.append((c3, nxt))
 
 
+def _opens_txn(program, fn, name) -> bool:
+    for m in resolve_self_call(program, fn, name):
+        for c in ast.walk(m):
+            if isinstance(c, ast.Call) and (call_name(c).endswith("db.begin") or call_name(c).endswith("db.connect")):
+                return True
+    return False
+
+
 def _check_closure_fn(program, ctx, rid, fn, hp, prop):
     q = qual_of(fn)
     writes = 0
+    for c in walk_no_nested(fn):
+        if isinstance(c, ast.Call) and call_name(c).startswith("self.") and call_name(c).count(".") == 1:
+            mname = call_name(c).split(".")[1]
+            if mname in ("pre_save", "post_save", "process_tags", "run_single_query", "get_event", "run_query"):
+                continue  # closure members / read-only helpers on their own connection (listed as informational)
+            if _opens_txn(program, fn, mname):
+                ctx.bad(finding_at(prop, rid, c, f"{q} calls self.{mname}(), which opens and commits its own transaction, from inside the event's transaction: that effect is committed even if the "
+                                   "event is then rolled back (e.g. the old version is deleted but the new one is never stored)"))
     for c in walk_no_nested(fn):
         if not isinstance(c, ast.Call):
             continue
